@@ -3,6 +3,7 @@ package main
 import (
 	"encoding/hex"
 	"go/token"
+	"go/types"
 
 	"golang.org/x/crypto/sha3"
 )
@@ -68,3 +69,5 @@ func valuesToBytes(v []value) []byte {
 	}
 	return out
 }
+
+func typesPointer(t types.Type) types.Type { return types.NewPointer(t) }
